@@ -156,9 +156,14 @@ def build_cases(sc, obs, with_backup, crash=False, exclude=(), arm_ops=("arm",),
     ref = {}                     # keyhex -> (part, (vid, ts)) | (part, None); absent = unknown
     prev = None                  # (index, hstate obs)
     pending = []                 # ops since the previous hstate
+    settled = False              # a member was (or may have been) lost and the cluster has re-stabilised since
     for i, (op, ob) in enumerate(zip(sc["ops"], obs)):
         if op["op"] in arm_ops:
             armed = True
+        if op["op"] in arm_ops or op["op"] == "stop":
+            settled = False
+        if op["op"] == "waitstable" and ob.get("r") == "ok":
+            settled = True
         if op["op"] != "hstate":
             pending.append((i, op, ob))
             continue
@@ -230,6 +235,11 @@ def build_cases(sc, obs, with_backup, crash=False, exclude=(), arm_ops=("arm",),
             changed = prev is None or abstract(prev[1], p, num, with_backup)[:2] != st[:2] or any(
                 po.get("part") == p for _, _, po in pending)
             if not changed:
+                continue
+            if armed and not settled:
+                # between the loss of a member and the re-stabilisation of the cluster a dump combines a routing table that
+                # still names the lost member with the copies of the live members only: not a state of the model
+                stats["crash_states_not_settled"] = stats.get("crash_states_not_settled", 0) + 1
                 continue
             stats["states"] += 1
             sid = len(scases)
